@@ -24,6 +24,7 @@ mod c08;
 mod c09;
 mod c16;
 mod c17;
+mod c18;
 mod c19;
 
 use report::Report;
@@ -89,6 +90,7 @@ fn main() {
         "c09" => c09::run(&args, &mut report),
         "c16" => c16::run(&args, &mut report),
         "c17" => c17::run(&args, &mut report),
+        "c18" => c18::run(&args, &mut report),
         "c19" => c19::run(&args, &mut report),
         _ => {
             eprintln!("unknown property {prop}");
